@@ -32,6 +32,28 @@ func init() {
 		},
 		Undecided: []string{"target kinds other than regular file / directory (FIFOs, devices)", "per-recipient ReadChat filter and the AnyName rule are decided under C12 / C13"},
 	}
+	plans["C16"] = &Plan{
+		Items: []Item{{Plugin: "accesstables"}, {Func: "hotline.(*AccessBitmap).IsSet"}, {Func: "hotline.(*AccessBitmap).Set"}, {Func: "hotline.(*ClientConn).Authorize"}},
+		Decided: []string{
+			"IsSet(i) is bit i counted from the most significant bit of byte 0; Set(i) sets exactly that bit (all 64 indices, all byte values)",
+			"MarshalYAML: each of the 40 named fields equals the bit of its privilege number (spec/access_names.spec); no field without row, no row without field",
+			"UnmarshalYAML named form: bit j is set iff j is a defined privilege whose name maps to true; legacy form: byte i of the bitmap is element i of the array",
+			"Authorize decides by the same bit (proved against IsSet's contract)",
+		},
+		Undecided: []string{"YAML library round trip (assumed)", "save/load lemma is the composition of the two table results (argued in DESIGN.md, propositional)"},
+	}
+	plans["C06"] = &Plan{
+		Items: []Item{
+			{Plugin: "handler-contract", Func: "mobius.HandleNewUser", Kinds: []string{"site", "inv-init", "inv-step"}},
+			{Plugin: "handler-contract", Func: "mobius.HandleUpdateUser", Kinds: []string{"site", "inv-init", "inv-step"}},
+			{Plugin: "handler-contract", Func: "mobius.HandleDisconnectUser", Kinds: []string{"site"}},
+			{Func: "hotline.NewAccount"}, {Func: "hotline.(*AccessBitmap).IsSet"}, {Func: "hotline.(*ClientConn).Authorize"},
+		},
+		Decided: []string{
+			"at both AccountManager.Create sites (350 NewUser, 349 UpdateUser create branch): every bit of the created account's bitmap is held by the creator, for all 2^64 x 2^64 bitmap pairs (64-iteration subset loop with inductive invariant)",
+			"HandleDisconnectUser: BanList.Add (both options) and the delayed Disconnect are reached only if the target lacks cannot-be-disconnected (bit 23)",
+		},
+	}
 	plans["C01"] = &Plan{
 		Items: fnItems(nil,
 			"hotline.(*Field).Read", "hotline.NewField", "hotline.(*Field).Write", "hotline.FieldScanner",
